@@ -266,7 +266,7 @@ def _plan(tier):
 
 def run(rep: Report):
     tier = rep.tier
-    opts = {"prove_timeout_ms": 5000, "fork_timeout_ms": 2000, "seed": rep.seed, "scenario_wall_s": 240 if tier == "quick" else 2400}
+    opts = {"prove_timeout_ms": 5000, "fork_timeout_ms": 2000, "seed": rep.seed, "scenario_wall_s": 900 if tier == "quick" else 2400}
     run_plan(rep, _plan(tier), SCENARIOS, opts)
     if tier == "thorough":
         from ..runner import run_crosshair
